@@ -1,5 +1,6 @@
 """C04 - structural Verilog write-then-read returns the same netlist."""
 from simkit.engine import Prop
+from simkit import design_shrink
 from simkit.gen_hier import ScriptGen
 from simkit import corpus, textgen_verilog
 from simkit.model import scan
@@ -107,7 +108,10 @@ class C04(Prop):
             ev.append({"op": "fs_put_example", "name": cfg["example"], "path": "sim://in.v"})
         else:
             d = textgen_verilog.gen_design(rng, cfg["gen"])
-            ev.append({"op": "fs_put", "path": "sim://in.v", "text": textgen_verilog.render(d, rng, cfg["render"])})
+            rs = rng.getrandbits(32)
+            ev.append({"op": "fs_put", "path": "sim://in.v", "text": design_shrink.render("v", d, rs, cfg["render"]),
+                       "design": d, "fmt": "v", "render": cfg["render"], "render_seed": rs,
+                       "aliased": any(p.get("alias") or p.get("alias_wide") for m in d["modules"] for p in m["ports"])})
         ev.append({"op": "parse", "path": "sim://in.v", "tag": "source"})
         net = "e%d.0" % (len(ev) - 1)
         for t in cfg["transforms"]:
@@ -124,11 +128,14 @@ class C04(Prop):
 
     def start(self, w, cfg):
         self.before_form = None
+        self.aliased = False
         self.stop = False
         self.cfg = cfg
 
     def after(self, w, ev, outcome, pre):
         tag = ev.get("tag")
+        if ev["op"] == "fs_put" and ev.get("aliased"):
+            self.aliased = True
         if self.stop or tag is None:
             return
         how = "+".join(self.cfg["transforms"]) or "plain"
@@ -196,6 +203,8 @@ class C04(Prop):
             if lost:
                 raise Violation("C04.modules", how + ":prims", "instantiated primitives lost: %r" % sorted(lost)[:3])
             w.count("probe.roundtrips_compared")
+            if getattr(self, "aliased", False):
+                w.count("probe.roundtrip_with_aliased_header_port")
 
 
 def _first(a, b):
